@@ -5,6 +5,7 @@ CONSTANTS
   HeadLens = {54}
   UseNil = TRUE
   Scalers = {"ttf", "otto", "true"}
+  Limit = 5
   Orders = {"recommended"}
 SPECIFICATION Spec
 INVARIANT InvWellFormed
